@@ -9,11 +9,12 @@ ROOT = os.path.dirname(os.path.dirname(os.path.abspath(__file__)))
 OUT = "/tmp/hv_seed_root"
 def main():
     args = sys.argv[1:]
-    tier = "quick"; imp = None; ids = []; name = None
+    tier = "quick"; imp = None; ids = []; name = None; norun = False
     i = 0
     while i < len(args):
         if args[i] == "--tier": tier = args[i+1]; i += 2
         elif args[i] == "--import": imp = args[i+1]; i += 2
+        elif args[i] == "--no-run": norun = True; i += 1
         elif name is None: name = args[i]; i += 1
         else: ids.append(args[i]); i += 1
     d = os.path.join(ROOT, "seeded", name)
@@ -23,6 +24,7 @@ def main():
         if os.path.exists(os.path.join(imp, "meta.json")): shutil.copy(os.path.join(imp, "meta.json"), d)
         if os.path.isdir(os.path.join(imp, "demo")):
             shutil.rmtree(os.path.join(d, "demo"), ignore_errors=True); shutil.copytree(os.path.join(imp, "demo"), os.path.join(d, "demo"))
+    if norun: return
     if not ids: ids = [name[:3]]
     if subprocess.run(["git","-C","/repo","status","--porcelain","--untracked-files=no"],capture_output=True,text=True).stdout.strip():
         print("refusing: /repo has uncommitted changes"); sys.exit(2)
